@@ -45,6 +45,8 @@ def run(tier="quick"):
     nins = LR.check_insert_effects(chk, prog, "dlinked_list.c", True, only=names) + LR.check_insert_effects(chk, prog, "linked_list.c", False, only=names)
     nbl = LR.check_dup_backlinks(chk, prog, only={f.name for f in LR.iface_functions(prog, "vector", with_parent=True)})
     nlen = sum(LR.check_len_on_remove(chk, prog, u, only=names) for u in ("linked_list.c", "dlinked_list.c"))
+    nbal = sum(LR.check_len_balance(chk, prog, u, only=names) for u in ("linked_list.c", "dlinked_list.c"))
+    chk.count("len_balance_functions", nbal, floor=1)
     nf, nund, samples = C02.cap_array(chk, prog, fns)
     # Q1 bisection loops are left only through their condition or a match
     nqf, nundq = LR.check_bisection(chk, prog, fns, NORETURN, "Q1")
